@@ -85,8 +85,27 @@ _RX = [
     ("mysql41", re.compile(r"^\*([0-9a-fA-F]{40})$")),
     ("bsdi_crypt", re.compile(rf"^_({_H}{{4}})({_H}{{4}})({_H}{{11}})$")),
     ("des_crypt", re.compile(rf"^({_H}{{2}})({_H}{{11}})$")),
+    ("sun_md5_crypt", re.compile(rf"^\$md5(?:,rounds=([ \t+_0-9]+))?\$([^$]*)(\$\$|\$)({_H}{{22}})$")),
+    ("ldap_salted_md5", re.compile(r"^\{SMD5\}(.+)$", re.I | re.S)),
+    ("ldap_salted_sha256", re.compile(r"^\{SSHA256\}(.+)$", re.I | re.S)),
+    ("ldap_salted_sha512", re.compile(r"^\{SSHA512\}(.+)$", re.I | re.S)),
+    ("ldap_md5", re.compile(r"^\{MD5\}(.+)$", re.I | re.S)),
+    ("django_salted_md5", re.compile(r"^md5\$([^$]*)\$([0-9a-fA-F]{32})$")),
+    ("django_pbkdf2_sha1", re.compile(r"^pbkdf2_sha1\$([ \t+_0-9]+)\$([^$]+)\$([^$]+)$", re.S)),
+    ("atlassian_pbkdf2_sha1", re.compile(r"^\{PKCS5S2\}(.+)$", re.I | re.S)),
+    ("grub_pbkdf2_sha512", re.compile(r"^grub\.pbkdf2\.sha512\.([ \t+_0-9]+)\.([0-9a-fA-F]*)\.([0-9a-fA-F]+)$")),
+    ("mssql2000", re.compile(r"^0[xX]0100([0-9a-fA-F]{8})([0-9a-fA-F]{40})([0-9a-fA-F]{40})$")),
+    ("mssql2005", re.compile(r"^0[xX]0100([0-9a-fA-F]{8})([0-9a-fA-F]{40})$")),
+    ("oracle11", re.compile(r"^S:([0-9a-fA-F]{40})([0-9a-fA-F]{20})$", re.I)),
     ("fshp", re.compile(r"^\{FSHP(\d+)\|(\d+)\|(\d+)\}([A-Za-z0-9+/]+={0,3})$")),
 ]
+
+
+# a fixed prefix in front of another format's string (LDAP scheme names are case-insensitive)
+_WRAPPED = {"ldap_md5_crypt": ("{CRYPT}", "md5_crypt", True), "ldap_sha256_crypt": ("{CRYPT}", "sha256_crypt", True),
+            "ldap_sha512_crypt": ("{CRYPT}", "sha512_crypt", True), "ldap_sha1_crypt": ("{CRYPT}", "sha1_crypt", True),
+            "ldap_des_crypt": ("{CRYPT}", "des_crypt", True), "ldap_bsdi_crypt": ("{CRYPT}", "bsdi_crypt", True),
+            "ldap_bcrypt": ("{CRYPT}", "bcrypt", True), "django_bcrypt": ("bcrypt$", "bcrypt", False)}
 
 
 def extract(s, only=None):
@@ -98,6 +117,13 @@ def extract(s, only=None):
             return None
     if not isinstance(s, str):
         return None
+    if only and len(only) == 1 and only[0] in _WRAPPED:
+        prefix, inner, nocase = _WRAPPED[only[0]]
+        head = s[:len(prefix)]
+        if not (head == prefix or (nocase and head.upper() == prefix.upper())):
+            return None
+        r = extract(s[len(prefix):], only=(inner,))
+        return None if r is None else (only[0],) + tuple(r[1:])
     for name, rx in _RX:
         if only and name not in only and not (name == "bcrypt_sha256_v1" and "bcrypt_sha256" in only):
             continue
@@ -163,6 +189,34 @@ def _decode(name, m):
         return (name, (h64_int_le(g[0]),), g[1], g[2])
     if name == "des_crypt":
         return (name, (), g[0], g[1])
+    if name == "sun_md5_crypt":
+        # the config text (rounds, salt and whether a '$' follows the salt) is what gets digested
+        return (name, (0 if g[0] is None else _int(g[0]), g[2] == "$"), g[1], g[3])
+    if name in ("ldap_salted_md5", "ldap_salted_sha256", "ldap_salted_sha512", "ldap_md5"):
+        n = {"ldap_salted_md5": 16, "ldap_salted_sha256": 32, "ldap_salted_sha512": 64, "ldap_md5": 16}[name]
+        raw = b64std(g[0])
+        if len(raw) < n or (name == "ldap_md5" and len(raw) != n):
+            raise ValueError
+        return (name, (), raw[n:], raw[:n])
+    if name == "django_salted_md5":
+        return (name, (), g[0], _hex(g[1]))
+    if name == "django_pbkdf2_sha1":
+        return (name, (_int(g[0]),), g[1], b64std(g[2]))
+    if name == "atlassian_pbkdf2_sha1":
+        raw = b64std(g[0])
+        if len(raw) != 48:
+            raise ValueError
+        return (name, (), raw[:16], raw[16:])
+    if name == "grub_pbkdf2_sha512":
+        return (name, (_int(g[0]),), _hex(g[1]), _hex(g[2]))
+    if name == "mssql2000":
+        # documented by the format: "only the second digest [of the upper-cased password] is used when verifying"; the first
+        # one (case-sensitive, kept for forward compatibility) does not take part, so it is not part of the verified value
+        return (name, (), _hex(g[0]), _hex(g[2]))
+    if name == "mssql2005":
+        return (name, (), _hex(g[0]), _hex(g[1]))
+    if name == "oracle11":
+        return (name, (), _hex(g[1]), _hex(g[0]))
     if name == "fshp":
         variant, ssize, rounds = int(g[0]), int(g[1]), int(g[2])
         raw = base64.b64decode(g[3] + "=" * (-len(g[3]) % 4))
